@@ -14,14 +14,15 @@ the count never exceeds the limit.
   write included), delete (absent ids, foreign namespaces), metadata update (cannot move a document
   to another tenant), batch delete by ids (duplicates, absent ids) and by filter, BulkInsert streams,
   the quota probe, and the start-up recount;
-* `C14_reachable`: after ANY sequence of these operations by any configured tenants, from the empty
+* `C14_sequential`: after ANY sequence of these operations by any configured tenants, from the empty
   server;
 * `C14_never_over_limit`, `C14_not_refused_below_limit`: the consequences the property names.
-* NOT covered by a theorem here: BulkLoadHnsw's reserve / release arithmetic (`bulkLoad` is modelled
-  and compared with the server on every run; its preservation proof is missing: `C14_partial`), and
-  concurrent RPCs (the model is sequential: decided by the schedule exploration of `./check C14`).
+* `C14_bulkLoad_exact`: BulkLoadHnsw's reserve / release arithmetic (duplicates inside the batch,
+  rejected items, overwrites of existing ids);
+* NOT covered by a theorem: concurrent RPCs (the model is sequential; decided by the schedule
+  exploration of `./check C14` on the real handlers).
 -/
-import KyroModel.Lemmas.TenantInv
+import KyroModel.Lemmas.TenantBulk
 
 namespace KyroModel.C14
 open KyroModel KyroModel.Srv
@@ -257,6 +258,13 @@ theorem C14_bulkInsert_exact (hts : Tenants ts) {s : S} (hi : Inv ts s) {t : Tn}
     have h2 := ih h1
     split <;> exact h2
 
+/-- **BulkLoadHnsw**: validation drops items, the new ids (duplicates counted once) are reserved in
+    one step or the whole call is refused, engine-refused items store nothing, and the unused part of
+    the reservation is released: count = live again (`Lemmas/TenantBulk.lean`). -/
+theorem C14_bulkLoad_exact (hts : Tenants ts) {s : S} (hi : Inv ts s) {t : Tn} (ht : t ∈ ts)
+    (items : List Item) : Inv ts (Srv.bulkLoad s t items).1 :=
+  bulkLoad_inv hts hi ht items
+
 theorem C14_probe_exact {s : S} (hi : Inv ts s) (t : Tn) : Inv ts (probe s t) := by
   unfold probe
   simp only
@@ -302,13 +310,16 @@ theorem C14_step_exact (parse : String → Option Nat) (hts : Tenants ts) {s : S
   | bdIds t lids ns => exact C14_batchDeleteIds_exact hts hi (hop t rfl) lids ns
   | bdFilter t f ns => exact C14_batchDeleteFilter_exact parse hts hi (hop t rfl) f ns
   | bulkInsert t items => exact C14_bulkInsert_exact hts hi (hop t rfl) items
+  | bulkLoad t items => exact C14_bulkLoad_exact hts hi (hop t rfl) items
   | probe t => exact C14_probe_exact hi t
   | restart => exact C14_restart_exact hts hi
 
-/-- **C14 (sequential histories, BulkLoadHnsw excepted)**: after ANY sequence of inserts, overwrites,
-    refused writes, deletes, metadata updates, batch deletes, BulkInsert streams and restarts by any
-    configured tenants, the count used for admission equals the live documents of every tenant. -/
-theorem C14_partial (parse : String → Option Nat) (hts : Tenants ts) (dim : Nat) (ops : List Op)
+/-- **C14, sequential histories**: after ANY sequence of inserts, overwrites, refused writes, deletes,
+    metadata updates, batch deletes (ids / filter), BulkInsert streams, BulkLoadHnsw batches and
+    restarts by any configured tenants, the count used for admission equals the live documents of
+    every tenant.  (Concurrent RPCs are outside this sequential model: `./check C14` explores them on
+    the real handlers.) -/
+theorem C14_sequential (parse : String → Option Nat) (hts : Tenants ts) (dim : Nat) (ops : List Op)
     (hops : ∀ op ∈ ops, ∀ t, op.tenant = some t → t ∈ ts) :
     Inv ts (ops.foldl (step parse ts) { dim := dim }) := by
   suffices h : ∀ (s : S), Inv ts s → Inv ts (ops.foldl (step parse ts) s) from h _ (C14_init dim)
